@@ -231,6 +231,22 @@ class HArr:
 
     @property
     def elem(self):
+        """Element function. For a view this is a SNAPSHOT of the base array at the time of the read, so arrays
+        built from it do not change when the base is written later (numpy computes eagerly)."""
+        if self.tag and self.tag[0] == "view" and getattr(self, "_heap", None) is not None:
+            _, addr, maps = self.tag
+            bel = self._heap[addr].elem
+
+            def snap(ix, bel=bel, maps=maps):
+                full, j = [], 0
+                for kind, t in maps:
+                    if kind == "int":
+                        full.append(t)
+                    else:
+                        full.append(t + z_int(ix[j]))
+                        j += 1
+                return bel(tuple(full))
+            return _memo(snap)
         return self._elem
 
     @elem.setter
